@@ -234,8 +234,8 @@ def main(report, tier, seed, workers, calibrate=False):
         if S is not None:
             sl = S.slices()
             rungs = [dict(name='full', envs=[None], timeout=full_t),
-                     dict(name='slices:metric-value-fixed', envs=[sl[0][1], sl[1][1]], timeout=120
-                          if tier == 'quick' else 600),
+                     dict(name='slices:metric-value-fixed', envs=[sl[0][1], sl[1][1]], timeout=300
+                          if tier == 'quick' else 900),
                      ]
             sampler = S.sampler()
             vacuity(report, S.pre, name=f"{blk['name']}:pre")
